@@ -6,6 +6,7 @@ from .interp import Program, Explorer, World, Interp
 from .summaries import S
 from . import summaries_str  # registers str/char summaries
 from . import summaries_fmt  # registers core::fmt summaries (after summaries_str: replaces the placeholder `format`)
+from . import summaries_more  # str searching/splitting, slice helpers, more iterator consumers, integer helpers (validated by lib/stdprobe.py)
 
 _cache = {}
 
